@@ -15,7 +15,7 @@
        for k in expired_keys: del cache[k]
        entry = cache.get(key)
        if entry is not None and current_time - entry[0] <= valid: cache.move_to_end(key); return entry[1]
-       result = func(..); cache[key] = (current_time, result)
+       result = func(..); cache.pop(key, None); cache[key] = (current_time, result)     (pop: since 962d1ca, F-C19-3)
        if len(cache) > max_size: cache.popitem(last=False)
        return result
 
@@ -133,13 +133,17 @@ Definition lru_set (k : K) (v : Z * R) (it : items) : items :=
   then map (fun e => if keqb (fst e) k then (fst e, v) else e) it
   else it ++ [(k, v)].
 
+(* cache.pop(key, None); cache[key] = v : the key goes to the most-recent end whether or not it was held
+   (since 962d1ca; before, a held key kept its position: lru_set, finding F-C19-3) *)
+Definition lru_put (k : K) (v : Z * R) (it : items) : items := lru_remove k it ++ [(k, v)].
+
 Definition lru_call (max_size : nat) (valid : option Z) (s : lru_st) (a : A) : lru_st * outcome :=
   let now := l_now s in
   let k := key a in
   let live := lru_live valid now (l_items s) in           (* expiry sweep *)
-  let miss :=                                              (* func(..); cache[key] = ..; trim *)
+  let miss :=                                              (* func(..); cache.pop(key, None); cache[key] = ..; trim *)
     let r := f a (l_calls s) in
-    (mkL (lru_trim max_size (lru_set k (now, r) live)) now (N.succ (l_calls s)), mkO a now false r) in
+    (mkL (lru_trim max_size (lru_put k (now, r) live)) now (N.succ (l_calls s)), mkO a now false r) in
   match lru_find k live with                               (* entry = cache.get(key) *)
   | Some e =>
       if fresh valid now (fst (snd e))                     (* age of the entry checked on the hit path *)
@@ -276,7 +280,7 @@ Arguments sic_run {A K R}. Arguments last_miss {A R}. Arguments is_miss {A R}. A
 Arguments sic_expect {A K R}. Arguments sic_spec {A K R}.
 Arguments mkL {K R}. Arguments l_items {K R}. Arguments l_now {K R}. Arguments l_calls {K R}.
 Arguments lru_init {K R}. Arguments lru_live {K R}. Arguments lru_find {K R}. Arguments lru_remove {K R}.
-Arguments lru_trim {K R}. Arguments lru_set {K R}. Arguments lru_call {A K R}. Arguments lru_tick {K R}. Arguments lru_run {A K R}.
+Arguments lru_trim {K R}. Arguments lru_set {K R}. Arguments lru_put {K R}. Arguments lru_call {A K R}. Arguments lru_tick {K R}. Arguments lru_run {A K R}.
 Arguments last_use_from {A K R}. Arguments last_use {A K R}. Arguments last_miss_for {A K R}.
 Arguments PTime {A R}. Arguments PRead {A R}. Arguments PCmp {A R}. Arguments PRetHit {A R}.
 Arguments PCall {A R}. Arguments PWrite {A R}. Arguments PRetMiss {A R}. Arguments PDone {A R}.
@@ -521,6 +525,7 @@ Inductive lpc :=
 | LMove (now : Z) (r : R)                          (* cache.move_to_end(key) *)
 | LRetHit (now : Z) (r : R)                        (* return entry[1] *)
 | LCall (now : Z)                                  (* result = func(..) *)
+| LPopK (now : Z) (r : R)                          (* cache.pop(key, None) *)
 | LStore (now : Z) (r : R)                         (* cache[key] = (current_time, result) *)
 | LLen (now : Z) (r : R)                           (* if len(cache) > max_size *)
 | LPop (now : Z) (r : R)                           (* cache.popitem(last=False) *)
@@ -571,7 +576,11 @@ Definition ltstep (max_size : nat) (valid : option Z) (sh : lsh) (t : lthread) :
       end
   | LRetHit now r => go (LDone now true (Some r))
   | LCall now => (mkLS (ls_items sh) (ls_ver sh) (ls_now sh) (N.succ (ls_calls sh)) (ls_log sh ++ [(a, ls_now sh)]),
-                  mkLT a (LStore now (f a (ls_calls sh))))
+                  mkLT a (LPopK now (f a (ls_calls sh))))
+  | LPopK now r =>                                                    (* no mutation when the key is absent *)
+      if has_key k (ls_items sh)
+      then (bump sh (filter (fun e => negb (keqb (fst e) k)) (ls_items sh)), mkLT a (LStore now r))
+      else go (LStore now r)
   | LStore now r => (bump sh (set_item k (now, r) (ls_items sh)), mkLT a (LLen now r))
   | LLen now r => if Nat.ltb max_size (length (ls_items sh)) then go (LPop now r) else go (LRet now r)
   | LPop now r =>
@@ -606,15 +615,15 @@ Arguments ls_log {A K R}.
 Arguments mkLT {A K R}. Arguments lt_arg {A K R}. Arguments lt_pc {A K R}.
 Arguments LTime {K R}. Arguments LDone {K R}. Arguments LKey {K R}. Arguments LIterNew {K R}.
 Arguments LIter {K R}. Arguments LDel {K R}. Arguments LGetE {K R}. Arguments LCond {K R}. Arguments LMove {K R}.
-Arguments LRetHit {K R}. Arguments LCall {K R}. Arguments LStore {K R}. Arguments LLen {K R}. Arguments LPop {K R}.
+Arguments LRetHit {K R}. Arguments LCall {K R}. Arguments LPopK {K R}. Arguments LStore {K R}. Arguments LLen {K R}. Arguments LPop {K R}.
 Arguments LRet {K R}. Arguments bump {A K R}.
 Arguments ltstep {A K R}. Arguments lcstep {A K R}. Arguments lcrun {A K R}. Arguments lreturned {A K R}.
 Arguments has_key {K R}. Arguments set_item {K R}.
 
 (* kinds of the shared-access lines of the LRU wrapper in source order (0 clock, 1 cache
    read, 2 call of f, 3 cache write): items() sweep, del, cache.get(key), move_to_end,
-   func, cache[key] = .., len(cache), popitem *)
-Definition lru_model_shape : list N := [0; 1; 3; 1; 3; 2; 3; 1; 3]%N.
+   func, cache.pop(key, None), cache[key] = .., len(cache), popitem *)
+Definition lru_model_shape : list N := [0; 1; 3; 1; 3; 2; 3; 3; 1; 3]%N.
 
 (* ------------------------------------------------------------------ *)
 (* concrete instance evaluated by the correspondence                    *)
@@ -734,3 +743,175 @@ Definition c19_conc_show (c : bool * option Z * Z * list (@event carg) * list ca
   | Some st => Some (map (fun t => (pc_kind (t_pc t), returned t)) (c_thr st))
   | None => None
   end.
+
+(* ------------------------------------------------------------------ *)
+(* Round 3: the wrapped function as something that ACTS while the wrapper is inside it.          *)
+(* A history is a forest: [XCall a body raises] is a call of the wrapper with arguments [a]; IF it  *)
+(* invokes the wrapped function, that invocation first performs [body] (clock advances and further *)
+(* calls of the same wrapper - re-entrant / recursive memoisation; an exception of a nested call is *)
+(* caught by the function) and then raises ([raises = true]) or returns [f a n], n = number of      *)
+(* invocations begun before.  A call served from the cache does not run its body.  The flat          *)
+(* histories above are the forests whose bodies are empty and which never raise                      *)
+(* (Proofs/C19_Reent.v).  The state carries the log of the invocations begun so far: (arguments,      *)
+(* clock value at the invocation), so the invocation counter is the length of the log.              *)
+(* ------------------------------------------------------------------ *)
+Section Reentrant.
+Variables A K R : Type.
+Variable key : A -> K.
+Variable keqb : K -> K -> bool.
+Variable f : A -> N -> R.
+
+Inductive xev :=
+| XCall (a : A) (body : xevs) (raises : bool)
+| XTick (d : N)
+with xevs := XNil | XCons (e : xev) (r : xevs).
+
+Fixpoint xl (l : list xev) : xevs := match l with [] => XNil | e :: r => XCons e (xl r) end.
+
+(* what a call did: arguments, clock value read, served from the cache (wrapped function not
+   invoked)?, value returned ([None] = the call raised) *)
+Record xout := mkXO { xo_arg : A; xo_now : Z; xo_hit : bool; xo_res : option R }.
+
+Definition inv_no (log : list (A * Z)) : N := N.of_nat (length log).
+
+(* ---- single_item_cache ---- *)
+Record sx_st := mkSX { sx_entry : option (A * R * Z); sx_now : Z; sx_log : list (A * Z) }.
+Definition sx_init (t0 : Z) : sx_st := mkSX None t0 [].
+
+Definition sx_lookup (valid : option Z) (s : sx_st) (a : A) : option R :=
+  match sx_entry s with
+  | Some (la, lr, lt) => if keqb (key la) (key a) && fresh valid (sx_now s) lt then Some lr else None
+  | None => None
+  end.
+
+Fixpoint sicx_ev (valid : option Z) (e : xev) (s : sx_st) {struct e} : sx_st * list xout :=
+  match e with
+  | XTick d => (mkSX (sx_entry s) (sx_now s + Z.of_N d) (sx_log s), [])
+  | XCall a body raises =>
+      let now := sx_now s in
+      match sx_lookup valid s a with
+      | Some r => (s, [mkXO a now true (Some r)])
+      | None =>
+          let n := inv_no (sx_log s) in
+          (* result = func(..): the invocation is logged, its body runs against the live cache *)
+          let '(s2, tr) := sicx_run valid body (mkSX (sx_entry s) now (sx_log s ++ [(a, now)])) in
+          if raises then (s2, tr ++ [mkXO a now false None])       (* nothing stored *)
+          else (mkSX (Some (a, f a n, now)) (sx_now s2) (sx_log s2), tr ++ [mkXO a now false (Some (f a n))])
+      end
+  end
+with sicx_run (valid : option Z) (l : xevs) (s : sx_st) {struct l} : sx_st * list xout :=
+  match l with
+  | XNil => (s, [])
+  | XCons e r => let '(s1, t1) := sicx_ev valid e s in
+                 let '(s2, t2) := sicx_run valid r s1 in (s2, t1 ++ t2)
+  end.
+
+(* ---- lru_cache_with_expiry ---- *)
+Record lx_st := mkLX { lx_items : list (K * (Z * R)); lx_now : Z; lx_log : list (A * Z) }.
+Definition lx_init (t0 : Z) : lx_st := mkLX [] t0 [].
+
+(* entry = cache.get(key) after the sweep; usable when its own age is within the period *)
+Definition lx_lookup (valid : option Z) (s : lx_st) (a : A) : option (K * (Z * R)) :=
+  match lru_find keqb (key a) (lru_live valid (lx_now s) (lx_items s)) with
+  | Some e => if fresh valid (lx_now s) (fst (snd e)) then Some e else None
+  | None => None
+  end.
+
+(* the trace records, for every call at any depth, in order of completion, its outcome and the
+   content of the cache when it completed *)
+Fixpoint lrx_ev (mx : nat) (valid : option Z) (e : xev) (s : lx_st) {struct e}
+  : lx_st * list (xout * list (K * (Z * R))) :=
+  match e with
+  | XTick d => (mkLX (lx_items s) (lx_now s + Z.of_N d) (lx_log s), [])
+  | XCall a body raises =>
+      let now := lx_now s in
+      let k := key a in
+      let live := lru_live valid now (lx_items s) in             (* expiry sweep *)
+      match lx_lookup valid s a with
+      | Some e' => let it := lru_remove keqb k live ++ [e'] in     (* move_to_end; return entry[1] *)
+                   (mkLX it now (lx_log s), [(mkXO a now true (Some (snd (snd e'))), it)])
+      | None =>
+          let n := inv_no (lx_log s) in
+          (* result = func(..): the sweep's deletions are done, nothing else has been touched *)
+          let '(s2, tr) := lrx_run mx valid body (mkLX live now (lx_log s ++ [(a, now)])) in
+          if raises then (s2, tr ++ [(mkXO a now false None, lx_items s2)])   (* nothing stored, nothing evicted *)
+          else let it := lru_trim mx (lru_put keqb k (now, f a n) (lx_items s2)) in
+               (mkLX it (lx_now s2) (lx_log s2), tr ++ [(mkXO a now false (Some (f a n)), it)])
+      end
+  end
+with lrx_run (mx : nat) (valid : option Z) (l : xevs) (s : lx_st) {struct l}
+  : lx_st * list (xout * list (K * (Z * R))) :=
+  match l with
+  | XNil => (s, [])
+  | XCons e r => let '(s1, t1) := lrx_ev mx valid e s in
+                 let '(s2, t2) := lrx_run mx valid r s1 in (s2, t1 ++ t2)
+  end.
+
+(* history-only notion for the forest theorems: a call USES its key when it returns a value (it was served
+   from the cache, or it stored the value it computed); a call that raised used nothing.  1-based position, in a
+   trace given in order of completion, of the last call that used key k; 0 if there is none *)
+Definition xo_used (k : K) (o : xout) : bool :=
+  keqb (key (xo_arg o)) k && match xo_res o with Some _ => true | None => false end.
+Fixpoint xlast_from (k : K) (tr : list xout) (i : nat) (acc : nat) : nat :=
+  match tr with
+  | [] => acc
+  | o :: r => xlast_from k r (S i) (if xo_used k o then S i else acc)
+  end.
+Definition xlast_use (k : K) (tr : list xout) : nat := xlast_from k tr 0 0.
+
+(* the flat histories as forests *)
+Fixpoint embed (h : list (@event A)) : xevs :=
+  match h with
+  | [] => XNil
+  | Call a :: r => XCons (XCall a XNil false) (embed r)
+  | Tick d :: r => XCons (XTick d) (embed r)
+  end.
+End Reentrant.
+
+Arguments XCall {A}. Arguments XTick {A}. Arguments XNil {A}. Arguments XCons {A}. Arguments xl {A}.
+Arguments mkXO {A R}. Arguments xo_arg {A R}. Arguments xo_now {A R}. Arguments xo_hit {A R}. Arguments xo_res {A R}.
+Arguments inv_no {A}.
+Arguments mkSX {A R}. Arguments sx_entry {A R}. Arguments sx_now {A R}. Arguments sx_log {A R}. Arguments sx_init {A R}.
+Arguments sx_lookup {A K R}. Arguments sicx_ev {A K R}. Arguments sicx_run {A K R}.
+Arguments mkLX {A K R}. Arguments lx_items {A K R}. Arguments lx_now {A K R}. Arguments lx_log {A K R}. Arguments lx_init {A K R}.
+Arguments xo_used {A K R}. Arguments xlast_from {A K R}. Arguments xlast_use {A K R}.
+Arguments lx_lookup {A K R}. Arguments lrx_ev {A K R}. Arguments lrx_run {A K R}. Arguments embed {A}.
+
+(* --- correspondence streams for forests: observed per call at any depth, in order of completion,
+   (served from the cache?, value returned or None when the call raised[, cache content]) --- *)
+Definition ores_eqb (a b : option cres) : bool :=
+  match a, b with
+  | Some x, Some y => cres_eqb x y
+  | None, None => true
+  | _, _ => false
+  end.
+
+Fixpoint xouts_eqb (m : list (@xout carg cres)) (obs : list (bool * option cres)) : bool :=
+  match m, obs with
+  | [], [] => true
+  | o :: r, (h, v) :: s => Bool.eqb (xo_hit o) h && ores_eqb (xo_res o) v && xouts_eqb r s
+  | _, _ => false
+  end.
+
+Definition c19_sicx_check (c : option Z * Z * list (@xev carg) * list (bool * option cres)) : bool :=
+  let '(valid, t0, h, obs) := c in
+  xouts_eqb (snd (sicx_run ckey_of ckeqb cf valid (xl h) (sx_init t0))) obs.
+Definition c19_sicx_show (c : option Z * Z * list (@xev carg) * list (bool * option cres)) :=
+  let '(valid, t0, h, obs) := c in
+  map (fun o => (xo_hit o, xo_res o)) (snd (sicx_run ckey_of ckeqb cf valid (xl h) (sx_init t0))).
+
+Fixpoint lxouts_eqb (m : list (@xout carg cres * list (ckey * (Z * cres))))
+                    (obs : list (bool * option cres * list (ckey * Z))) : bool :=
+  match m, obs with
+  | [], [] => true
+  | (o, it) :: r, (h, v, ks) :: s =>
+      Bool.eqb (xo_hit o) h && ores_eqb (xo_res o) v && list_eqb kz_eqb (content it) ks && lxouts_eqb r s
+  | _, _ => false
+  end.
+
+Definition c19_lrx_check (c : nat * option Z * Z * list (@xev carg) * list (bool * option cres * list (ckey * Z))) : bool :=
+  let '(mx, valid, t0, h, obs) := c in
+  lxouts_eqb (snd (lrx_run ckey_of ckeqb cf mx valid (xl h) (lx_init t0))) obs.
+Definition c19_lrx_show (c : nat * option Z * Z * list (@xev carg) * list (bool * option cres * list (ckey * Z))) :=
+  let '(mx, valid, t0, h, obs) := c in
+  map (fun x => (xo_hit (fst x), xo_res (fst x), content (snd x))) (snd (lrx_run ckey_of ckeqb cf mx valid (xl h) (lx_init t0))).
